@@ -485,5 +485,18 @@ func genUniverse(r *rand.Rand, nInputs int) (simdoh.Zone, []Input) {
 	if core.Chance(r, 2, 5) {
 		g.poison()
 	}
+	if core.Chance(r, 1, 8) {
+		// an upstream that does not chase CNAMEs (every answer is the one CNAME
+		// record) - and, half of the time, a CNAME cycle that only shows when
+		// somebody follows such answers by hand
+		g.z.OneHop = true
+		if h := strings.ToLower(strings.TrimSuffix(host, ".")); core.Chance(r, 1, 2) && len(simdoh.NameProblems(h)) == 0 && net.ParseIP(h) == nil && h != "localhost" {
+			g.z.RRs = append([]simdoh.RR{
+				{Name: h, Type: simdoh.TypeCNAME, TTL: 60, Target: "ring1.cycle.test"},
+				{Name: "ring1.cycle.test", Type: simdoh.TypeCNAME, TTL: 60, Target: "ring2.cycle.test"},
+				{Name: "ring2.cycle.test", Type: simdoh.TypeCNAME, TTL: 60, Target: h},
+			}, g.z.RRs...)
+		}
+	}
 	return g.z, inputs
 }
